@@ -294,7 +294,7 @@ Section Ops.
     destruct (g_ovf (glyph_new P T tovf (g_contours g) s (g_adv g) (g_export g))).
     - destruct (decompose fuel F _) as [[g2 dup]|] eqn:Ed; [|discriminate].
       inversion H; subst. destruct (decompose_shape _ _ _ _ _ Ed) as (Hc & Ha & He). simpl in *. auto.
-    - inversion H; subst; simpl. repeat split; auto. right; right. exists lost; auto.
+    - injection H as <- <-. simpl. repeat split; auto. right; right. exists lost; auto.
   Qed.
 
   (* whatever the visited set does, decomposition invents no contour *)
